@@ -243,6 +243,45 @@ def export(o, k, fmt):
     raise ValueError(fmt)
 
 
+def apply_op(o, op, k0=None, fmt=None):
+    """One earlier call on the same object (transport of the spec's op record; a call that raises simply failed)."""
+    from bitcoinlib.networks import Network
+    try:
+        name = op['op']
+        if name == 'export':
+            export(o, k0, fmt)
+        elif name == 'network_change':
+            if hasattr(o, 'network_change'):
+                o.network_change(op['n'])
+            else:                       # a plain Key has no method for it: the public attribute is assigned
+                o.network = Network(op['n'])
+        elif name in OBSERVERS:
+            getattr(o, name)()
+    except Exception:
+        pass
+
+
+OBSERVERS = ['wif', 'wif_key', 'wif_private', 'wif_public', 'address', 'public', 'as_dict']
+TEMPLATES = ['on', 'n', 'ono', 'no', 'oo', 'nn', 'onn', 'oon']
+
+
+def make_history(k, i, targets):
+    """Calls made on the object before the export: template i (o = observer, n = network_change).  The first observer
+    of a history is the export under test itself ('export': call it, change things, call it again), further observers
+    and the target networks rotate."""
+    obs = [o for o in OBSERVERS if (k['hd'] or o in ('wif', 'address', 'public', 'as_dict'))
+           and (k['priv'] or o not in ('wif_key', 'wif_private') and (k['hd'] or o != 'wif'))]
+    hist = []
+    first = True
+    for j, c in enumerate(TEMPLATES[i % len(TEMPLATES)]):
+        if c == 'o':
+            hist.append({'op': 'export' if first else obs[(i // len(TEMPLATES) + 3 * j) % len(obs)], 'n': ''})
+            first = False
+        else:
+            hist.append({'op': 'network_change', 'n': targets[(i // len(TEMPLATES) + i + 5 * j) % len(targets)]})
+    return hist
+
+
 FAMILY_NAME = {'wif': 'wif', 'wif_compressed': 'wif', 'hdkey_private': 'xprv', 'hdkey_public': 'xpub',
                'wif_protected': 'bip38'}
 
@@ -263,7 +302,7 @@ def detect(value):
     return d
 
 
-def hint_sets(ep, fmt, thorough, rng):
+def hint_sets(ep, fmt, thorough, rng, lite=False):
     """Hint subsets tried at an entry point (names of the hints that are supplied)."""
     if ep == 'key':
         names = ['net', 'priv', 'comp']
@@ -274,6 +313,8 @@ def hint_sets(ep, fmt, thorough, rng):
     else:
         names = HINT_NAMES
     subs = [frozenset(c) for n in range(len(names) + 1) for c in itertools.combinations(names, n)]
+    if lite:
+        return [frozenset(), frozenset(names)]
     if ep == 'hd' and not thorough:
         core = [s for s in subs if len(s) in (0, 1, 4, 5)]
         rest = [s for s in subs if len(s) in (2, 3)]
@@ -325,18 +366,26 @@ def drive(job):
     """Worker: construct the key in bitcoinlib, export it in every format, run detection and all imports on the
     representations generated by the specification.  Returns one judge record per format (without the key's TLC part)."""
     import random
-    k = job['key']
+    k = job['key']            # the abstract key the exports are judged against: After(key0, hist)
+    hist = job['hist']
     rng = random.Random(job['seed'])
     thorough = job['thorough']
     out = []
-    try:
-        o = construct(k)
-        ctor = observe(o, 'ctor')
-    except Exception as e:
-        o = None
-        ctor = dict(NORES)
-    for item in job['items']:
+    def fresh(fmt):
+        """A new object of the key, with the history replayed on it ('export' = the export of fmt itself)."""
+        try:
+            obj = construct(job['key0'])
+            for op in hist:
+                apply_op(obj, op, job['key0'], fmt)
+            return obj, observe(obj, 'ctor')
+        except Exception:
+            return None, dict(NORES)
+
+    o, ctor = fresh(job['items'][0]['fmt'] if job['items'] else None)
+    for n_item, item in enumerate(job['items']):
         fmt = item['fmt']
+        if hist and n_item:
+            o = fresh(fmt)[0]
         pool = [b'']
         index = {b'': 1}
 
@@ -373,7 +422,7 @@ def drive(job):
             if fmt in ('wif', 'xprv', 'xpub', 'bip38'):
                 det = detect(value)
             for ep in entry_points(k, fmt):
-                for hs in hint_sets(ep, fmt, thorough, rng):
+                for hs in hint_sets(ep, fmt, thorough, rng, lite=bool(hist) and not thorough):
                     try:
                         res = observe(import_call(ep, value, k, fmt, hs), fmt)
                     except Exception:
@@ -439,7 +488,9 @@ def run(replay=None):
                'family, witness type, multisig, private, compressed, HD, secret class, hint set). Keys: every defined '
                'network x witness type x multisig with private/public, compressed/uncompressed, HD/plain shapes; '
                'secrets with 0-3 leading zero bytes, 02/03 first byte, 01 last byte, >= 10^77; depths 0/1/5/255; child '
-               'numbers 0,1,255,256,2^31-1,2^31,2^31+5,2^32-1')
+               'numbers 0,1,255,256,2^31-1,2^31,2^31+5,2^32-1; every second key (all in thorough) once more after a history of 1-3 '
+               'earlier calls on the same object (observers wif/wif_key/wif_private/wif_public/address/public/as_dict and '
+               'network_change to rotating target networks, 8 templates)')
     ck.assumptions = ['TLC evaluates KeyFormats.tla correctly',
                       'secp256k1 point of a secret and sha256d of a Base58Check payload come from harness/ref.py',
                       'version-byte table: SLIP-132 for bitcoin/testnet/litecoin; the library\'s own definitions for '
@@ -451,7 +502,7 @@ def run(replay=None):
     # ---------------- (M)
     if not os.environ.get('C12_DEV_SKIP_MODEL'):      # development switch (mutation trials): the model does not depend on the code
         ck.model(common.model_check('MC_KeyFormats', 'MC_KeyFormats_thorough.cfg' if thorough else 'MC_KeyFormats.cfg',
-                                    expect_actions=['Choose', 'DoExport', 'DoImport']))
+                                    expect_actions=['DoOp', 'Choose', 'DoExport', 'DoImport']))
 
     t0 = _t('model', t0)
     common.fresh_bitcoinlib_env()
@@ -464,6 +515,21 @@ def run(replay=None):
     else:
         keys = sample_keys(rng, thorough)
         only = None
+    # export after a history: the same keys again, with 1-3 earlier calls on the object (no BIP38: scrypt)
+    hists = [[] for _ in keys]
+    if replay:
+        hists = [replay['case'].get('hist', [])]
+    else:
+        targets = list(NETS)
+        rng.shuffle(targets)
+        base = list(keys)
+        for i, k in enumerate(base):
+            for rep in range(2 if thorough else 1):
+                if thorough or i % 2 == 0:
+                    kk = dict(k)
+                    kk['lite'] = False
+                    keys.append(kk)
+                    hists.append(make_history(k, i // (1 if thorough else 2) * (rep + 1) + rep, targets))
     nbip = 0
     plan = []
     for i, k in enumerate(keys):
@@ -471,7 +537,7 @@ def run(replay=None):
         # key has no segwit address to be bound to
         with_bip38 = k['priv'] and (bool(replay) or thorough or i % 23 == 0) and not (k['hd'] and k['ms']) and \
             (k['compressed'] or k['wt'] == 'legacy' or not k['hd'])
-        fs = fmts_of(k, with_bip38)
+        fs = fmts_of(k, with_bip38 and not hists[i])
         if k.get('lite'):
             fs = [f for f in fs if f in ('wif', 'xprv', 'xpub', 'bip38')]
         if only:
@@ -480,8 +546,8 @@ def run(replay=None):
         plan.append(fs)
 
     # ---------------- (G) pass 1: representations at payload level; pass 2: Base58 strings
-    gen = common.tlc_eval('KeyFormatsEval', [{'k': 'gen', 'key': spec_key(k), 'fmts': fs} for k, fs in zip(keys, plan)],
-                          procs=4)
+    gen = common.tlc_eval('KeyFormatsEval', [{'k': 'gen', 'key': spec_key(k), 'hist': hi, 'fmts': fs}
+                                              for k, hi, fs in zip(keys, hists, plan)], procs=4)
     t0 = _t('gen', t0)
     want = []
     for g in gen:
@@ -496,19 +562,28 @@ def run(replay=None):
     t0 = _t('str', t0)
     it = iter(strs)
     jobs = []
-    for ki, (k, g) in enumerate(zip(keys, gen)):
+    keys0 = keys
+    keys = []
+    for ki, (k, hi, g) in enumerate(zip(keys0, hists, gen)):
+        ka = dict(g['after'])         # the key after its history, computed by the specification
+        ka['sclass'] = k.get('sclass')
+        ka['hist'] = hi
+        ka['key0'] = k
+        keys.append(ka)
         its = []
-        for e in g['exp']:
+        exps = [e for e in g['exp'] if e['t'] != 'undef']
+        for e in exps:
             spec = {'t': e['t'], 'v': e['v'], 'w': e['w']}
             if e['t'] == 'b58c':
                 spec = {'t': 'str', 'v': next(it), 'w': []}
             elif e['t'] == 'opaque':
                 spec = None
-            item = {'fmt': e['fmt'], 'spec': spec, 'first': g['exp'][0]['fmt']}
+            item = {'fmt': e['fmt'], 'spec': spec, 'first': exps[0]['fmt']}
             if e['dv']:
                 item['devstr'] = next(it)
             its.append(item)
-        jobs.append({'key': k, 'items': its, 'seed': common.seed() * 1000003 + ki, 'thorough': thorough})
+        jobs.append({'key': spec_key(ka), 'key0': k, 'hist': hi, 'items': its, 'seed': common.seed() * 1000003 + ki,
+                     'thorough': thorough})
 
     # ---------------- drive bitcoinlib
     if len(jobs) > 4:
@@ -538,13 +613,17 @@ def run(replay=None):
         return '%s/%s/%s %s %s %s secret-class %s depth %d index %s' % (
             k['network'], k['wt'], 'multisig' if k['ms'] else 'single', 'private' if k['priv'] else 'public',
             'compressed' if k['compressed'] else 'uncompressed', 'HD' if k['hd'] else 'plain', k.get('sclass', '?'),
-            k['depth'], bytes(k['index']).hex())
+            k['depth'], bytes(k['index']).hex()) + (
+            ' after %s on a key made for %s' % (', '.join(o['op'] + ('(%s)' % o['n'] if o['n'] else '()')
+                                                           for o in k['hist']), k['key0']['network'])
+            if k.get('hist') else '')
 
     ncalls = 0
     for k, r, v in zip(owner, recs, verdicts):
         fmt = r['fmt']
-        base = (fmt, FAMILY_OF[k['network']], k['wt'], k['ms'], k['priv'], k['compressed'], k['hd'], k.get('sclass'))
-        case = {'key': k, 'fmt': fmt}
+        base = (fmt, FAMILY_OF[k['network']], k['wt'], k['ms'], k['priv'], k['compressed'], k['hd'], k.get('sclass'),
+                tuple((o['op'], FAMILY_OF.get(o['n'])) for o in k.get('hist', [])))
+        case = {'key': k['key0'], 'hist': k.get('hist', []), 'fmt': fmt}
         shown = to_py(r['spec']) if r['spec']['t'] in ('str', 'bytes', 'int', 'point') else None
         if isinstance(shown, bytes):
             shown = shown.hex()
@@ -584,6 +663,7 @@ def run(replay=None):
                                                                         else '')[:120],
                    'imports': sum(len(g['calls']) for g in r['groups'])}, limit=8)
     ck.notes['keys'] = len(keys)
+    ck.notes['keys_exported_after_a_history'] = sum(1 for k in keys if k.get('hist'))
     ck.notes['representations'] = len(recs)
     ck.notes['bip38_keys'] = nbip
     return ck.finish()
